@@ -1,13 +1,19 @@
 """State-diff tracer for InstanceDecoder.decode (sys.monitoring LINE events).
 
-Observes the local list `items` of the running decode() after every line and
-classifies each change as
+Observes, after every line executed in any function of the decoder's module,
+the local value that holds the item collection - recognised by its documented
+starting state (min_bins bin-sized items), either as a list of [w, h] pairs or
+as two parallel lists of widths and heights, under whatever name - and
+classifies each change between consistent snapshots as
 
   split  - one side of one item reduced and a new item appended that tiles
            the old one together with it,
   shrink - one side of one item reduced, nothing appended (slack cut),
   end    - the merge phase begins (sort / multiplicities), tracking stops.
 
+(in either order of the two writes). If no such collection is ever seen the
+trace stays `unseen`, if a change cannot be explained it is `lost`; both mean
+"this monitor has nothing to say about this decoder", never a verdict.
 From these transitions it maintains a geometric layout: every item is a
 rectangle inside one of the `min_bins` bins - a witness packing of the
 generated instance in exactly `min_bins` bins. Nothing in /repo is edited.
@@ -24,95 +30,173 @@ class DecodeBudgetExceeded(Exception):
     """Raised from the LINE callback: bounded progress was not made."""
 
 
+def _pairs_of(v):
+    """The item list a local value may hold, as [(w, h), ...]:
+    - a list of two-element int lists/tuples, or
+    - two parallel int lists (widths, heights) held in one tuple/list.
+    Returns (reading, pairs); pairs is None while the value is transiently
+    inconsistent (parallel lists of different lengths)."""
+    out = []
+    t = type(v)
+    if t is list and v and all(type(e) in (list, tuple) and len(e) == 2
+                               for e in v):
+        try:
+            out.append(("pairs", [(int(a), int(b)) for a, b in v]))
+        except Exception:  # noqa
+            pass
+    if t in (tuple, list) and len(v) == 2 and type(v[0]) is list \
+            and type(v[1]) is list and v[0] and all(
+                type(e) is int for e in v[0]) and all(
+                type(e) is int for e in v[1]):
+        if len(v[0]) == len(v[1]):
+            out.append(("parallel", list(zip(v[0], v[1]))))
+        else:
+            out.append(("parallel", None))
+    return out
+
+
+def _explain(B, C):
+    """How snapshot C follows from snapshot B by at most one cut."""
+    if C == B:
+        return ("same",)
+    if len(C) == len(B):
+        diff = [i for i in range(len(C)) if C[i] != B[i]]
+        if len(diff) == 1:
+            k = diff[0]
+            dims = [d for d in (0, 1) if C[k][d] != B[k][d]]
+            if len(dims) == 1 and 0 < C[k][dims[0]] < B[k][dims[0]]:
+                return ("shrink", k, dims[0], C[k][dims[0]])
+        return None
+    if len(C) == len(B) + 1:
+        head, new = C[:-1], C[-1]
+        diff = [i for i in range(len(B)) if head[i] != B[i]]
+        if not diff:
+            return ("append-only",)
+        if len(diff) == 1:
+            k = diff[0]
+            for d in (0, 1):
+                if head[k][1 - d] == B[k][1 - d] == new[1 - d] \
+                        and head[k][d] > 0 and new[d] > 0 \
+                        and head[k][d] + new[d] == B[k][d]:
+                    return ("split", k, d, head[k][d], new[d])
+    return None
+
+
 class Trace:
+    """States: unseen (no item collection was ever recognised - nothing can
+    be said), tracking, ended (witness layout complete), lost."""
+
     def __init__(self, W: int, H: int, n_bins: int) -> None:
         self.W, self.H = W, H
-        # layout[i] = [bin, x, y, w, h] for items[i]
+        # layout[i] = [bin, x, y, w, h] for item i
         self.layout = [[b + 1, 0, 0, W, H] for b in range(n_bins)]
-        self.prev: list[tuple[int, ...]] | None = None
-        self.pending = None      # (index, dim, old, new)
+        self.base: list[tuple[int, int]] | None = None   # accepted snapshot
+        self.pre: list[tuple[int, int]] | None = None    # before pending
+        self.pending = None      # (index, dim, new) shrink not yet final
+        self.reading: str | None = None
+        self.held = 0
         self.events = {"split": 0, "shrink": 0, "lines": 0}
-        self.state = "tracking"   # tracking | ended | lost
+        self.state = "unseen"
         self.why_lost = ""
         self.total_lines = 0
 
     def _close_pending(self) -> None:
         if self.pending is not None:
-            k, d, old, new = self.pending
+            k, d, new = self.pending
             self.layout[k][3 + d] = new          # shrink keeps the origin
             self.events["shrink"] += 1
             self.pending = None
+            self.pre = None
+
+    def _apply_split(self, k, d, keep, rest) -> None:
+        lay = self.layout[k]
+        lay[3 + d] = keep
+        nl = list(lay)
+        nl[1 + d] = lay[1 + d] + keep
+        nl[3 + d] = rest
+        self.layout.append(nl)
+        self.events["split"] += 1
 
     def lose(self, why: str) -> None:
-        if self.state == "tracking":
+        if self.state in ("tracking", "unseen"):
             self.state = "lost"
             self.why_lost = why
 
-    def observe(self, items) -> None:
-        if self.state != "tracking" or items is None:
+    def observe_locals(self, loc) -> None:
+        if self.state not in ("tracking", "unseen"):
+            return
+        vals = []
+        if "items" in loc:
+            vals.append(loc["items"])
+        vals.extend(v for k, v in loc.items() if k != "items")
+        for v in vals:
+            if type(v) not in (list, tuple):
+                continue
+            for reading, pairs in _pairs_of(v):
+                if self.reading is None:
+                    # the collection is recognised by its documented start:
+                    # min_bins bin-sized items
+                    if pairs is not None and len(pairs) == len(self.layout) \
+                            and all(c == (self.W, self.H) for c in pairs):
+                        self.reading = reading
+                        self.state = "tracking"
+                        self.base = pairs
+                        self.events["lines"] += 1
+                        return
+                    continue
+                if reading != self.reading:
+                    continue
+                if pairs is None:
+                    return           # transiently inconsistent
+                self.observe(pairs)
+                return
+
+    def observe(self, cur) -> None:
+        if self.state != "tracking":
             return
         self.events["lines"] += 1
-        try:
-            cur = [tuple(int(v) for v in it) for it in items]
-        except Exception:  # noqa
+        base = self.base
+        if cur == base:
             return
-        prev = self.prev
-        self.prev = cur
-        if prev is None:
-            if len(cur) != len(self.layout) or any(
-                    c != (self.W, self.H) for c in cur):
-                self.lose("initial items are not min_bins bin-sized items")
-            return
-        if cur == prev:
-            return
-        if any(len(c) != 2 for c in cur):
-            self._close_pending()
-            self.state = "ended"
-            return
-        if len(cur) == len(prev) + 1 and cur[:-1] == prev:
-            new = cur[-1]
-            if self.pending is None:
-                self.lose("item appended without a preceding reduction")
+        if self.pending is not None:
+            e = _explain(self.pre, cur)
+            if e is not None and e[0] == "split":
+                self.pending = None
+                self.pre = None
+                self._apply_split(*e[1:])
+                self.base = cur
+                self.held = 0
                 return
-            k, d, old, nw = self.pending
-            if new[d] != old - nw or new[1 - d] != prev[k][1 - d]:
-                self.lose("appended item does not tile the reduced one")
-                return
-            lay = self.layout[k]
-            lay[3 + d] = nw
-            nl = list(lay)
-            nl[1 + d] = lay[1 + d] + nw
-            nl[3 + d] = old - nw
-            self.layout.append(nl)
-            self.pending = None
-            self.events["split"] += 1
-            return
-        if len(cur) == len(prev):
-            diff = [i for i in range(len(cur)) if cur[i] != prev[i]]
-            if len(diff) == 1:
-                k = diff[0]
-                dims = [d for d in (0, 1) if cur[k][d] != prev[k][d]]
-                if len(dims) == 1 and 0 < cur[k][dims[0]] < prev[k][dims[0]]:
-                    self._close_pending()
-                    self.pending = (k, dims[0], prev[k][dims[0]],
-                                    cur[k][dims[0]])
-                    return
-            # many items changed: the list was sorted -> merge phase
-            if sorted(cur) == sorted(prev):
+        e = _explain(base, cur)
+        if e is None or e[0] == "append-only":
+            # merge phase (sorted / shortened) or a transient state
+            if len(cur) < len(base) or (len(cur) == len(base)
+                                        and sorted(cur) == sorted(base)):
                 self._close_pending()
                 self.state = "ended"
                 return
-            self.lose("unclassifiable change of the item list")
+            self.held += 1
+            if self.held > 8:
+                self.lose("unclassifiable change of the item collection")
             return
-        if len(cur) < len(prev):
+        self.held = 0
+        if e[0] == "shrink":
             self._close_pending()
-            self.state = "ended"
-            return
-        self.lose("unclassifiable change of the item list")
+            self.pre = base
+            self.pending = (e[1], e[2], e[3])
+            self.base = cur
+        elif e[0] == "split":
+            self._close_pending()
+            self._apply_split(*e[1:])
+            self.base = cur
 
     def finish(self) -> None:
-        self._close_pending()
         if self.state == "tracking":
+            if self.held:
+                self.lose("decode returned in an unexplained state of the "
+                          "item collection")
+                return
+            self._close_pending()
             self.state = "ended"
 
     def rects(self):
@@ -120,11 +204,47 @@ class Trace:
         return [(b, x, y, x + w, y + h) for b, x, y, w, h in self.layout]
 
 
+def _codes_of(module) -> set:
+    """All code objects whose source is the module's file."""
+    import types
+    fn = getattr(module, "__file__", None)
+    seen: set = set()
+
+    def walk(code):
+        if code in seen or code.co_filename != fn:
+            return
+        seen.add(code)
+        for c in code.co_consts:
+            if isinstance(c, types.CodeType):
+                walk(c)
+
+    def visit(obj):
+        f = getattr(obj, "__func__", obj)
+        f = getattr(f, "__wrapped__", f)
+        c = getattr(f, "__code__", None)
+        if isinstance(c, types.CodeType):
+            walk(c)
+
+    for v in list(vars(module).values()):
+        if isinstance(v, type) and getattr(v, "__module__", None) == \
+                module.__name__:
+            for u in list(vars(v).values()):
+                visit(u)
+        else:
+            visit(v)
+    return seen
+
+
 class DecodeTracer:
     """Installs LINE monitoring on one code object."""
 
-    def __init__(self, code) -> None:
+    def __init__(self, code, module=None) -> None:
         self.code = code
+        #: every code object defined in the decoder's module: the item
+        #: collection may live in helper functions of a restructured decoder
+        self.codes = {code}
+        if module is not None:
+            self.codes |= _codes_of(module)
         self.active: Trace | None = None
         self.available = hasattr(sys, "monitoring")
         self.installed = False
@@ -138,13 +258,14 @@ class DecodeTracer:
         except ValueError:
             return False
         mon.register_callback(TOOL_ID, mon.events.LINE, self._on_line)
-        mon.set_local_events(TOOL_ID, self.code, mon.events.LINE)
+        for c in self.codes:
+            mon.set_local_events(TOOL_ID, c, mon.events.LINE)
         self.installed = True
         return True
 
     def _on_line(self, code, line):
         tr = self.active
-        if tr is None or code is not self.code:
+        if tr is None or code not in self.codes:
             return
         tr.total_lines += 1
         if tr.total_lines > LINE_BUDGET:
@@ -152,9 +273,9 @@ class DecodeTracer:
                 f"decode() executed more than {LINE_BUDGET} lines")
         try:
             fr = sys._getframe(1)
-            if fr.f_code is not self.code:
+            if fr.f_code is not code:
                 return
-            tr.observe(fr.f_locals.get("items"))
+            tr.observe_locals(fr.f_locals)
         except Exception:  # noqa  (the monitor must never disturb the code)
             tr.lose("tracer exception")
 
